@@ -77,7 +77,8 @@ C07T = [("Mc.Props.C07", "Mc.C07.C07_gate"), ("Mc.Props.C07", "Mc.C07.C07_child_
 C09T = [("Mc.Props.C09", "Mc.C09.C09_tail_no_revision_write"), ("Mc.Props.C09", "Mc.C09.C09_head_no_child_mutation_claim"), ("Mc.Props.C09", "Mc.C09.C09_head_no_child_mutation_related"), ("Mc.Props.C09", "Mc.C09.C09_head_no_child_mutation_revisions"), ("Mc.Props.C09", "Mc.C09.C09_head_no_child_mutation"), ("Mc.Props.C09", "Mc.C09.C09_order"), ("Mc.Props.C09", "Mc.C09.C09_order_full"), ("Mc.Props.C09", "Mc.C09.C09_manageRevisions_failed_write_stops"), ("Mc.Props.C09", "Mc.C09.C09_failed_revision_write_stops_partial"), ("Mc.Props.C09", "Mc.C09.C09_failed_revision_write_stops_children"), ("Mc.Props.C09", "Mc.C09.C09_failed_revision_write_stops")]
 C11T = [("Mc.Props.C11", "Mc.C11.C11_footprint"), ("Mc.Props.C11", "Mc.C11.C11_body"), ("Mc.Props.C11", "Mc.C11.C11_uid_guard"), ("Mc.Props.C11", "Mc.C11.C11_skip_equal"), ("Mc.Props.C11", "Mc.C11.C11_retry_bound"), ("Mc.Props.C11", "Mc.C11.C11_after_child_errors"), ("Mc.Props.C11", "Mc.C11.C11_status_follows_children"), ("Mc.Props.C11", "Mc.C11.C11_write_when_different")]
 C15T = [("Mc.Props.C15", "Mc.C15.C15_selection_type_invalid"), ("Mc.Props.C15", "Mc.C15.C15_selection_type_byNames"), ("Mc.Props.C15", "Mc.C15.C15_selection_type_byLabels"), ("Mc.Props.C15", "Mc.C15.C15_byLabels_triggers"), ("Mc.Props.C15", "Mc.C15.C15_byNames_triggers"), ("Mc.Props.C15", "Mc.C15.C15_selected_triggers"), ("Mc.Props.C15", "Mc.C15.C15_once_per_generation_cached"), ("Mc.Props.C15", "Mc.C15.C15_once_per_generation_stored"), ("Mc.Props.C15", "Mc.C15.C15_requests"), ("Mc.Props.C15", "Mc.C15.C15_listed_triggers"), ("Mc.Props.C15", "Mc.C15.C15_invalid_is_error"), ("Mc.Props.C15", "Mc.C15.C15_foreign_namespace_error"), ("Mc.Props.C15", "Mc.C15.C15_unknown_resource_error"), ("Mc.Props.C15", "Mc.C15.C15_bad_rule_fails")]
-C16T = [("Mc.Props.C16", "Mc.C16.C16_string_map_pointwise"), ("Mc.Props.C16", "Mc.C16.C16_string_map_uniq"), ("Mc.Props.C16", "Mc.C16.C16_changed_flag"), ("Mc.Props.C16", "Mc.C16.C16_flag_false_of_satisfied"), ("Mc.Props.C16", "Mc.C16.C16_selector_conjunction"), ("Mc.Props.C16", "Mc.C16.C16_rule_for"), ("Mc.Props.C16", "Mc.C16.C16_undeclared_never_matches"), ("Mc.Props.C16", "Mc.C16.C16_attachment_filter_sound"), ("Mc.Props.C16", "Mc.C16.C16_attachment_filter_complete"), ("Mc.Props.C16", "Mc.C16.C16_attachment_filter"), ("Mc.Props.C16", "Mc.C16.C16_no_change_no_request"), ("Mc.Props.C16", "Mc.C16.C16_bad_status_no_request")]
+C16T = [("Mc.Props.C16", "Mc.C16.C16_string_map_pointwise"), ("Mc.Props.C16", "Mc.C16.C16_string_map_uniq"), ("Mc.Props.C16", "Mc.C16.C16_changed_flag"), ("Mc.Props.C16", "Mc.C16.C16_flag_false_of_satisfied"), ("Mc.Props.C16", "Mc.C16.C16_selector_conjunction"), ("Mc.Props.C16", "Mc.C16.C16_rule_for"), ("Mc.Props.C16", "Mc.C16.C16_undeclared_never_matches"), ("Mc.Props.C16", "Mc.C16.C16_attachment_filter_sound"), ("Mc.Props.C16", "Mc.C16.C16_attachment_filter_complete"), ("Mc.Props.C16", "Mc.C16.C16_attachment_filter"), ("Mc.Props.C16", "Mc.C16.C16_no_change_no_request"), ("Mc.Props.C16", "Mc.C16.C16_bad_status_no_request"),
+        ("Mc.Props.C16Foot", "Mc.C16.C16_parent_bodies")]
 C10ST = [("Mc.Props.C10Sync", "Mc.C10.C10_add_first_partial"), ("Mc.Props.C10Sync", "Mc.C10.C10_add_skipped_when_present"), ("Mc.Props.C10Sync", "Mc.C10.C10_failed_finalizer_phase"), ("Mc.Props.C10Sync", "Mc.C10.C10_failed_add_stops"), ("Mc.Props.C10Sync", "Mc.C10.C10_add_phase_starts_with_get"), ("Mc.Props.C10Sync", "Mc.C10.C10_dying_parent_inert_claims"), ("Mc.Props.C10Sync", "Mc.C10.C10_dying_parent_only_parent"), ("Mc.Props.C10Sync", "Mc.C10.C10_dying_parent_guard"), ("Mc.Props.C10Sync", "Mc.C10.C10_dying_parent_only_parent_decorator"), ("Mc.Props.C10Sync", "Mc.C10.C10_dying_parent_guard_decorator")]
 
 C02T = [("Mc.Props.C02", "Mc.C02.C02_manage_requests_strong"), ("Mc.Props.C02", "Mc.C02.C02_manage_requests"), ("Mc.Props.C02", "Mc.C02.C02_manage_requests_ssa"), ("Mc.Props.C02", "Mc.C02.C02_delete_guard"), ("Mc.Props.C02", "Mc.C02.C02_revision_requests"), ("Mc.Props.C02", "Mc.C02.C02_revision_delete_guard"), ("Mc.Props.C02", "Mc.C02.C02_create_owner"), ("Mc.Props.C02", "Mc.C02.C02_create_controller"), ("Mc.Props.C02", "Mc.C02.C02_create_owner_needs_meta"), ("Mc.Props.C02", "Mc.C02.C02_apply_owner"), ("Mc.Props.C02", "Mc.C02.C02_apply_controller"), ("Mc.Props.C02", "Mc.C02.C02_apply_controller_partial_counterexample"), ("Mc.Props.C02", "Mc.C02.sys_has_uid"), ("Mc.Props.C02", "Mc.C02.sys_has_resourceVersion"), ("Mc.Props.C02", "Mc.C02.C02_update_keeps_identity"), ("Mc.Props.C02", "Mc.C02.C02_update_keeps_identity_generated"), ("Mc.Props.C02", "Mc.C02.applyUpdate_status_kept"), ("Mc.Props.C02", "Mc.C02.C02_claim_requests"), ("Mc.Props.C02", "Mc.C02.C02_claim_requests_targets"), ("Mc.Props.C02", "Mc.C02.C02_claim_no_foreign_write")]
